@@ -49,6 +49,11 @@ func layer2(c *core.Ctx, x *exec, P *refjs.Node, alt bool, orig []*Obs) *core.Re
 		st.Count("l2_interp_steps", ref.Steps)
 		if ref.OutOfDomain != "" {
 			st.Inc("l2_out_of_domain:" + ref.OutOfDomain)
+			if strings.HasPrefix(ref.OutOfDomain, "known-finding") {
+				// the run reached the neighbourhood of a listed finding: layer 1 does not judge this placement either
+				st.Inc("excluded_known_placements")
+				orig[pl] = nil
+			}
 			continue
 		}
 		st.Inc("l2_compared")
